@@ -133,6 +133,15 @@ class Sc:
                 len=(len(key) if key is not None else 0) if length is None else length,
                 rounds=rounds, pk=self.pl())
 
+    def ctr_huge(self, k, o, gib, rem, samples, tail=0, rr=None):
+        self.op("ctr_huge", k=k, o=o, gib=gib, rem=rem, samples=",".join(str(x) for x in samples), tail=tail, rr=rr)
+
+    def par_huge(self, k, o, gib, rem, blk, enc=True, tweak=None, rr=None):
+        kw = dict(k=k, o=o, gib=gib, rem=rem, enc=1 if enc else 0, blk=hx(blk), rr=rr)
+        if tweak is not None:
+            kw["tweak"] = hx(tweak)
+        self.op("par_huge", **kw)
+
     def ctr_set_tweaked_key(self, k, o, key, length=None):
         self.op("ctr_set_tweaked_key", k=k, o=o, key=hx(key),
                 len=(len(key) if key is not None else 0) if length is None else length,
